@@ -13,7 +13,10 @@ import (
 	"log/slog"
 	"os"
 	"path/filepath"
+	"regexp"
+	"runtime"
 	"sort"
+	"strings"
 	"sync"
 	"testing"
 	"testing/synctest"
@@ -156,16 +159,17 @@ type World struct {
 	PoolSize      int
 	NotAfterLimit time.Time
 
-	incs       []*Inc
-	byLog      map[*ctlog.Log]*Inc
-	subSeq     int
-	entries    map[[32]byte]*Entry
-	altEntries map[[32]byte][]*Entry
-	entSeq     int
-	warm       []byte // checkpoint bytes marking the warm-up tree
-	Quiet      bool   // warm-up: submissions, outcomes and clock reads are not recorded
-	warmSubs   []*Sub
-	S3Discard  bool // Discard is a successful no-op (S3 semantics)
+	incs        []*Inc
+	byLog       map[*ctlog.Log]*Inc
+	subSeq      int
+	entries     map[[32]byte]*Entry
+	altEntries  map[[32]byte][]*Entry
+	entSeq      int
+	warm        []byte // checkpoint bytes marking the warm-up tree
+	looseSubmit bool
+	Quiet       bool // warm-up: submissions, outcomes and clock reads are not recorded
+	warmSubs    []*Sub
+	S3Discard   bool // Discard is a successful no-op (S3 semantics)
 
 	tasks []*Task
 	Info  map[string]any
@@ -1031,7 +1035,11 @@ func (inc *Inc) Submit(e *Entry, low bool) *Sub {
 			w.emit(r)
 		}
 	}()
-	w.Settle()
+	if w.looseSubmit {
+		w.SettleLoose()
+	} else {
+		w.Settle()
+	}
 	return s
 }
 
@@ -1155,4 +1163,91 @@ func (w *World) CacheRollback(name string, snapshot []byte) {
 func (w *World) CacheSnapshot(name string) []byte {
 	b, _ := os.ReadFile(filepath.Join(w.Dir, "cache-"+name+".db"))
 	return b
+}
+
+// --- settling by goroutine states -------------------------------------------
+// synctest.Wait does not return while a goroutine of the bubble is blocked on a
+// sync.Mutex. The few scenarios that need a submitter blocked on the issuer
+// lock use these variants, which read the goroutine states from the runtime
+// (as the witness harness does). They only affect which schedule is explored.
+
+var bubbleHdr = regexp.MustCompile(`(?m)^goroutine (\d+) \[([^\]]*)\]:`)
+
+func (w *World) SettleLoose() {
+	buf := make([]byte, 4<<20)
+	stable := 0
+	for i := 0; i < 2000000; i++ {
+		runtime.Gosched()
+		n := runtime.Stack(buf, true)
+		busy := false
+		for _, m := range bubbleHdr.FindAllSubmatch(buf[:n], -1) {
+			st := string(m[2])
+			if !strings.Contains(st, "synctest bubble") {
+				continue
+			}
+			switch {
+			case strings.HasPrefix(st, "running"), strings.HasPrefix(st, "runnable"), strings.HasPrefix(st, "syscall"):
+				// the caller itself shows as running
+				if id := string(m[1]); id != w.selfGID() {
+					busy = true
+				}
+			}
+		}
+		if busy {
+			stable = 0
+			continue
+		}
+		stable++
+		if stable >= 5 {
+			return
+		}
+	}
+	panic("verif: SettleLoose did not settle")
+}
+
+func (w *World) selfGID() string {
+	buf := make([]byte, 64)
+	n := runtime.Stack(buf, false)
+	m := bubbleHdr.FindSubmatch(buf[:n])
+	if m == nil {
+		return ""
+	}
+	return string(m[1])
+}
+
+func (w *World) ReleaseLoose(op *Op, out Outcome) {
+	w.mu.Lock()
+	op.taken = true
+	for i, p := range w.pending {
+		if p == op {
+			w.pending = append(w.pending[:i], w.pending[i+1:]...)
+			break
+		}
+	}
+	w.mu.Unlock()
+	op.ch <- out
+	w.SettleLoose()
+}
+
+func (w *World) GoLoose(name string, f func() error) *Task {
+	t := &Task{Name: name}
+	go func() {
+		err := f()
+		w.mu.Lock()
+		t.Err = err
+		t.Done = true
+		w.mu.Unlock()
+	}()
+	w.SettleLoose()
+	return t
+}
+
+// SubmitLoose is Submit without waiting for durable quiescence.
+func (inc *Inc) SubmitLoose(e *Entry, low bool) *Sub {
+	w := inc.W
+	saved := w.looseSubmit
+	w.looseSubmit = true
+	s := inc.Submit(e, low)
+	w.looseSubmit = saved
+	return s
 }
